@@ -241,3 +241,7 @@ impl Object for Loop {
         )
     }
 }
+
+#[cfg(kani)]
+#[path = "/verif/kani/vm_loop_object.rs"]
+mod verif_kani;
